@@ -84,7 +84,8 @@ Ctl(c, at, envLen) == [c |-> c, at |-> at, envLen |-> envLen, ph |-> "body", pen
 
 Frame(clo, pc, env, self, mod) ==
     [clo |-> clo, pc |-> pc, env |-> env, k |-> <<>>, vs |-> <<>>, ctl |-> <<>>, self |-> self, mod |-> mod, line |-> pc,
-     selfcell |-> 0, ctor |-> FALSE]     \* ctor: an initialiser's frame returns its `self` whatever is returned
+     selfcell |-> 0, ctor |-> FALSE,     \* ctor: an initialiser's frame returns its `self` whatever is returned
+     seg |-> 0]                          \* script / module bodies: the segment they run (function frames: 0)
 
 (* a fiber: its frames (empty = finished), the fiber that called it (0 = none: new, suspended, or the
    main fiber), and `fresh`: the saved ip of its first frame is still the start of the code, which is
@@ -93,20 +94,42 @@ Frame(clo, pc, env, self, mod) ==
 Fiber(frames, st) == [frames |-> frames, st |-> st, caller |-> 0, fresh |-> TRUE, clo |-> 0]
 Cls(name) == [k |-> "cls", v |-> name]
 BuiltinClasses == {"Fiber", "Object", "Error", "RuntimeError", "AttributeError", "IndexError", "ImportError", "NameError",
-                   "TypeError", "ValueError", "StopIter"}
+                   "TypeError", "ValueError", "StopIter", "Type", "Nil", "Bool", "Num", "Func", "BuiltIn", "Method", "BuiltInMethod",
+                   "String", "Tuple", "Vec", "Range", "HashMap"}
 
 (* core.yl's iterator classes (Iter, MapIter, FilterIter) are yarel code; the machine runs the same
    code, given as tokens that carry their core.yl line numbers, before the program's own tokens *)
 PreludeToks == TLCEval(IF "PRELUDE" \in DOMAIN IOEnv THEN ndJsonDeserialize(IOEnv.PRELUDE)[1].prog ELSE <<>>)
 
-InitMachine(p) ==
-    [prog |-> PreludeToks \o p,
+Builtins == [x \in {"print", "type", "clock", "host_fail"} \cup BuiltinClasses |-> IF x \in BuiltinClasses THEN Cls(x) ELSE Nat_(x)]
+
+(* The token sequence is a concatenation of segments: the prelude, the snippets fed to the interpreter
+   one after the other (a plain program is one snippet), and the bodies of the modules a loader
+   would serve.  A snippet / module that does not compile is represented by its expected error. *)
+RECURSIVE Concat(_, _)
+Concat(ss, i) == IF i > Len(ss) THEN <<>> ELSE ss[i] \o Concat(ss, i + 1)
+RECURSIVE SegTable(_, _, _)
+SegTable(ss, i, base) == IF i > Len(ss) THEN <<>> ELSE <<[lo |-> base + 1, hi |-> base + Len(ss[i])]>> \o SegTable(ss, i + 1, base + Len(ss[i]))
+
+(* snips: sequence of [prog, bad, messages, reset]; mods: sequence of [path, prog, bad, msg] *)
+InitMachineFull(snips, mods) ==
+    LET bodies == <<PreludeToks>> \o [i \in 1..Len(snips) |-> snips[i].prog] \o [i \in 1..Len(mods) |-> mods[i].prog]
+        segs == SegTable(bodies, 1, 0)
+    IN
+    [prog |-> Concat(bodies, 1),
      plen |-> Len(PreludeToks),
+     segs |-> segs,
+     snips |-> snips,
+     mods |-> mods,
+     snip |-> 0,                \* current snippet (0 = the prelude)
+     modst |-> <<>>,            \* per module: "absent" | "loading" | "loaded", and its object
+     runs |-> <<>>,             \* results of finished snippets: [out, result]
      store |-> <<>>,
-     glob |-> [mod \in {"main"} |-> [x \in {"print", "type", "clock", "host_fail"} \cup BuiltinClasses |->
-                                      IF x \in BuiltinClasses THEN Cls(x) ELSE Nat_(x)]],
-     fibers |-> <<Fiber(<<Frame(0, 1, <<>>, Nil, "main")>>, "run")>>,
+     glob |-> [mod \in {"main"} |-> Builtins],
+     fibers |-> <<Fiber(<<[Frame(0, 1, <<>>, Nil, "main") EXCEPT !.seg = 1]>>, "run")>>,
      cur |-> 1,
+     main |-> 1,                \* the fiber running the current snippet
+     coreglob |-> Builtins,     \* the globals every module starts with (built-ins + the prelude's classes)
      out |-> <<>>,
      status |-> "run",          \* run | done
      result |-> [ok |-> TRUE, kind |-> "", messages |-> <<>>],
@@ -116,8 +139,13 @@ InitMachine(p) ==
      retv |-> Nil,
      n |-> 0]
 
-LineAt(m, pc) == IF pc < 1 \/ pc > Len(m.prog) THEN pc - m.plen
-                  ELSE IF "ln" \in DOMAIN m.prog[pc] THEN m.prog[pc].ln ELSE pc - m.plen
+InitMachine(p) == InitMachineFull(<<[prog |-> p, bad |-> FALSE, messages |-> <<>>, reset |-> FALSE]>>, <<>>)
+
+SegOf(m, pc) == IF \E i \in 1..Len(m.segs) : pc >= m.segs[i].lo /\ pc <= m.segs[i].hi
+                 THEN CHOOSE i \in 1..Len(m.segs) : pc >= m.segs[i].lo /\ pc <= m.segs[i].hi
+                 ELSE Len(m.segs)
+LineAt(m, pc) == IF pc >= 1 /\ pc <= Len(m.prog) /\ "ln" \in DOMAIN m.prog[pc] THEN m.prog[pc].ln
+                  ELSE pc - m.segs[SegOf(m, pc)].lo + 1
 CurFiber(m) == m.fibers[m.cur]
 NFrames(m) == Len(CurFiber(m).frames)
 CurFrame(m) == CurFiber(m).frames[NFrames(m)]
@@ -163,6 +191,7 @@ Show(m, v, seen) ==
            [] o.k = "class" -> "<class " \o o.name \o ">"
            [] o.k = "bound" -> "<method " \o m.store[o.meth.v].name \o " on " \o Show(m, o.recv, seen) \o " @ [MEMADDR]>"
            [] o.k = "fiber" -> "<fiber @ [MEMADDR]>"
+           [] o.k = "module" -> "<module \"" \o o.path \o "\">"
            [] o.k = "iter" -> (IF o.kind = "range" THEN "ObjRangeIter instance"
                                ELSE "<Obj" \o (IF o.kind = "vec" THEN "Vec" ELSE "Tuple") \o "Iter instance @ [MEMADDR]>")
            [] OTHER -> "<?>"
@@ -207,12 +236,13 @@ TraceLines(m, frames, i) ==
 Finish(m, ok, kind, messages) ==
     [m EXCEPT !.status = "done", !.brk = TRUE, !.result = [ok |-> ok, kind |-> kind, messages |-> messages]]
 
-FnId(m, fr) == IF fr.clo = 0 THEN 0 ELSE m.store[fr.clo].at
+FnId(m, fr) == IF fr.clo = 0 THEN -1000000 - fr.seg ELSE m.store[fr.clo].at
 Uncaught(m, c, frames) ==
     LET info == KindOfThrown(m, c.v)
         n == Len(frames)
         fs == IF n > 0 /\ FnId(m, frames[n]) = c.of THEN [frames EXCEPT ![n].line = c.ol] ELSE frames
-    IN Finish(m, FALSE, info.kind, <<"Unhandled " \o info.desc \o ": " \o Text(m, info.ctx)>> \o TraceLines(m, fs, n))
+    IN Finish([m EXCEPT !.fibers[m.cur].frames = <<>>, !.fibers[m.cur].st = "run"],
+              FALSE, info.kind, <<"Unhandled " \o info.desc \o ": " \o Text(m, info.ctx)>> \o TraceLines(m, fs, n))
 
 Trig(m, t) == [m EXCEPT !.trig = m.trig \cup {t}]
 
@@ -353,6 +383,10 @@ BoundedIndex(m, iv, len, kind) ==
              i == IF i0 < 0 THEN i0 + len ELSE i0
          IN IF i < 0 \/ i >= len THEN Bad(IndexErr(kind)) ELSE Ok(N(i))
 
+NativeMethodNames == {"derives", "iter", "len", "is_alpha", "is_digit", "is_hexdigit", "count_chars", "char_byte_index", "find", "replace",
+                      "split", "starts_with", "ends_with", "to_num", "to_bytes", "to_code_points", "next", "push", "pop", "has_key", "get",
+                      "insert", "remove", "clear", "keys", "values", "items", "call", "has_finished", "new", "yield", "from", "from_ascii",
+                      "from_utf8", "from_code_points", "map", "filter", "collect", "reduce"}
 NatM(name) == [k |-> "natm", v |-> name]
 ObjectMethods == [x \in {"derives"} |-> NatM("derives")]
 ErrorMethods == [x \in {"derives", "new"} |-> IF x = "new" THEN NatM("Error.new") ELSE NatM("derives")]
@@ -515,6 +549,9 @@ Invoke(m, r, name, args) ==
          IF name \in DOMAIN Obj(m, r).fields THEN CallValue(m, Obj(m, r).fields[name], args, Nil)
          ELSE LET ms == MethodsOf(m, Obj(m, r).cls) IN
               IF name \in DOMAIN ms THEN CallValue(m, ms[name], args, r) ELSE RaiseErr(m, AttrErr(name))
+    ELSE IF IsKind(m, r, "module") THEN
+         LET g == m.glob[Obj(m, r).path] IN
+         IF name \in DOMAIN g THEN CallValue(m, g[name], args, Nil) ELSE RaiseErr(m, AttrErr(name))
     ELSE IF IsKind(m, r, "class") THEN
          \* called through the class: only static methods / constructors (the metaclass's table)
          LET c == Obj(m, r) IN
@@ -558,7 +595,7 @@ Invoke(m, r, name, args) ==
                 IF isNew /\ n # Len(clo.ps) THEN RaiseErr(m, ParamErr(Len(clo.ps), n))
                 ELSE IF ~isNew /\ n > 1 THEN RaiseErr(m, Err("TypeError", "Expected at most 1 parameter but found " \o ToString(n) \o "."))
                 ELSE IF fb.st # "new" /\ fb.frames = <<>> THEN RaiseErr(m, Err("RuntimeError", "Cannot call a finished fiber."))
-                ELSE IF fb.caller # 0 \/ fi = 1 THEN RaiseErr(m, Err("RuntimeError", "Cannot call a fiber that has already been called."))
+                ELSE IF fb.caller # 0 \/ fi = m.main THEN RaiseErr(m, Err("RuntimeError", "Cannot call a fiber that has already been called."))
                 ELSE IF fb.st = "new" THEN
                      \* first call: the closure's frame, parameter bound to the argument
                      LET b == BindParams(m, clo.env, clo.ps, args, 1)
@@ -699,6 +736,41 @@ Micro(m) ==
                  SetFrame(m2, [fr1 EXCEPT !.vs = Pop(vs), !.ctl = Pop(fr.ctl), !.env = SubSeq(fr.env, 1, e.envLen),
                                           !.pc = EndOf(m.prog, e.at) + 1])
             ELSE SetFrame(m2, [fr1 EXCEPT !.vs = Pop(vs), !.pc = e.at + 1])
+      [] it.i = "startimport" ->
+         LET path == it.a
+             known == {j \in 1..Len(m.modst) : m.modst[j].path = path}
+             srcs == {j \in 1..Len(m.mods) : m.mods[j].path = path}
+         IN
+         IF known # {} THEN
+              LET st == m.modst[CHOOSE j \in known : TRUE] IN
+              IF st.st = "loaded" THEN SetFrame(m, [fr1 EXCEPT !.vs = Append(Append(vs, Ref(st.obj)), Nil)])
+              ELSE Fail(Err("ImportError", "Circular dependency encountered when importing module '" \o path \o "'."))
+         ELSE IF srcs = {} THEN Fail(Err("ImportError", "Unable to read file '" \o path \o ".yl' (file not found)."))
+         ELSE LET j == CHOOSE q \in srcs : TRUE
+                  md == m.mods[j] IN
+              IF md.bad THEN Fail(Err("ImportError", md.msg))
+              ELSE \* the module exists (not yet imported) while its body runs as a call in this fiber
+                   LET oaddr == NewAddr(m1)
+                       m2 == [Alloc(m1, [k |-> "module", path |-> path]) EXCEPT
+                                !.modst = Append(m.modst, [path |-> path, st |-> "loading", obj |-> oaddr]),
+                                !.glob = (path :> m.coreglob) @@ m.glob]
+                       seg == 1 + Len(m.snips) + j
+                       body == [Frame(0, m.segs[seg].lo, <<>>, Nil, path) EXCEPT !.seg = seg]
+                   IN IF NFrames(m) = FramesMax THEN Fail(Err("IndexError", "Stack overflow."))
+                      ELSE [SetFrame(m2, [fr1 EXCEPT !.vs = Append(vs, Ref(oaddr))]) EXCEPT
+                              !.fibers[m.cur].frames = Append(@, body), !.brk = TRUE,
+                              !.fibers[m.cur].fresh = IF NFrames(m) = 1 THEN FALSE ELSE @]
+      [] it.i = "finishimport" ->
+         \* value stack: module, result of the body; the module is now imported
+         LET modv == vs[Len(vs) - 1]
+             path == Obj(m, modv).path
+         IN SetFrame([m EXCEPT !.modst = [j \in 1..Len(m.modst) |-> IF m.modst[j].path = path THEN [m.modst[j] EXCEPT !.st = "loaded"] ELSE m.modst[j]]],
+                     [fr1 EXCEPT !.vs = Pop(vs)])
+      [] it.i = "get" /\ IsKind(m, Top(vs), "module") ->
+         LET g == m.glob[Obj(m, Top(vs)).path] IN
+         IF it.a \in DOMAIN g THEN Replace(1, g[it.a]) ELSE Fail(AttrErr(it.a))
+      [] it.i = "setf" /\ IsKind(m, vs[Len(vs) - 1], "module") ->
+         SetFrame(SetGlobal(m, Obj(m, vs[Len(vs) - 1]).path, it.a, Top(vs)), [fr1 EXCEPT !.vs = Append(PopN(vs, 2), Top(vs))])
       [] it.i = "get" ->
          LET o == Top(vs)
              Bind(meth) == IF meth.k = "natm" THEN [Finish(m, FALSE, "OutOfModel", <<>>) EXCEPT !.oom = TRUE]   \* bound natives: not modelled
@@ -711,7 +783,8 @@ Micro(m) ==
               IF it.a \in DOMAIN ms THEN Bind(ms[it.a]) ELSE Fail(AttrErr(it.a))
          ELSE IF IsKind(m, o, "class") THEN
               (IF it.a \in Obj(m, o).statics THEN Bind(Obj(m, o).methods[it.a]) ELSE Fail(AttrErr(it.a)))
-         ELSE [Finish(m, FALSE, "OutOfModel", <<>>) EXCEPT !.oom = TRUE]
+         ELSE IF it.a \in NativeMethodNames THEN [Finish(m, FALSE, "OutOfModel", <<>>) EXCEPT !.oom = TRUE]   \* a bound built-in method
+         ELSE Fail(AttrErr(it.a))
       [] it.i = "setf" ->
          LET o == vs[Len(vs) - 1] v == Top(vs) IN
          IF IsKind(m, o, "inst") THEN
@@ -751,8 +824,8 @@ Fetch(m) ==
         p == m.prog
         pc == fr.pc
     IN
-    IF pc > Len(p) THEN
-         \* end of the script body
+    IF fr.seg > 0 /\ pc > m.segs[fr.seg].hi THEN
+         \* end of a script / module body
          DeliverHere(m, Comp("return", Nil))
     ELSE
     LET tk == p[pc]
@@ -780,6 +853,7 @@ Fetch(m) ==
               IN SetFrame(m2, [frl EXCEPT !.env = env2, !.pc = EndOf(p, pc) + 1])
          ELSE LET m2 == Alloc(m, Closure(pc, fr.env, tk.x, tk.ps, FALSE, Nil, fr.mod))
               IN SetFrame(SetGlobal(m2, fr.mod, tk.x, Ref(NewAddr(m))), [frl EXCEPT !.pc = EndOf(p, pc) + 1])
+      [] tk.t = "import" -> Go(<<It1("startimport", tk.p), It("finishimport"), It2("vardecl", tk.x, tk.d), It("next")>>)
       [] tk.t = "class" ->
          \* the variable exists (nil) while the class is being defined; the class value is stored at the end
          LET hasSup == tk.sup.k = "var"
@@ -857,15 +931,42 @@ RunItems(m, fuel) ==
 
 (* the active fiber has no frames left: its body returned *)
 FiberDone(m) ==
-    IF m.cur = 1 THEN Finish(m, TRUE, "", <<>>)
+    IF m.cur = m.main THEN Finish(m, TRUE, "", <<>>)
     ELSE \* return_impl of the fiber's last frame: unload_fiber, the caller's `call` gets the return value
          LET c == CurFiber(m).caller
              m2 == [m EXCEPT !.fibers[m.cur].caller = 0, !.cur = c, !.brk = TRUE]
          IN SetFrame(m2, Push(CurFrame(m2), m.retv))
 
-Step(m) ==
+Step1(m) ==
     LET m0 == [m EXCEPT !.brk = FALSE, !.n = m.n + 1] IN
     IF NFrames(m0) = 0 THEN FiberDone(m0)
     ELSE IF CurFrame(m0).k = <<>> THEN RunItems(Fetch(m0), 200)
     ELSE RunItems(m0, 200)
+
+(* A run (the prelude or a snippet) has ended: record it and start the next snippet on the same
+   interpreter - new main fiber, same globals / modules / heap - as Vm::execute does.  Snippets that do
+   not compile yield their compile error and change nothing; a reset restores the initial globals. *)
+RECURSIVE StartNext(_)
+StartNext(m) ==
+    LET nx == m.snip + 1 IN
+    IF nx > Len(m.snips) THEN m
+    ELSE LET sn == m.snips[nx] IN
+         IF sn.reset THEN
+              StartNext([m EXCEPT !.snip = nx, !.glob = [mod \in {"main"} |-> m.coreglob], !.modst = <<>>,
+                                  !.runs = Append(m.runs, [out |-> <<>>, result |-> [ok |-> TRUE, kind |-> "reset", messages |-> <<>>]])])
+         ELSE IF sn.bad THEN
+              StartNext([m EXCEPT !.snip = nx,
+                                  !.runs = Append(m.runs, [out |-> <<>>, result |-> [ok |-> FALSE, kind |-> "CompileError", messages |-> sn.messages]])])
+         ELSE LET seg == 1 + nx
+                  fb == Fiber(<<[Frame(0, m.segs[seg].lo, <<>>, Nil, "main") EXCEPT !.seg = seg]>>, "run")
+              IN [m EXCEPT !.snip = nx, !.fibers = Append(m.fibers, fb), !.cur = Len(m.fibers) + 1, !.main = Len(m.fibers) + 1,
+                           !.status = "run", !.out = <<>>, !.result = [ok |-> TRUE, kind |-> "", messages |-> <<>>]]
+
+AdvanceRun(m) ==
+    IF m.status # "done" \/ m.result.kind \in {"Stuck", "OutOfModel"} THEN m
+    ELSE LET m1 == IF m.snip = 0 THEN [m EXCEPT !.coreglob = m.glob["main"]]          \* the prelude has defined core.yl's classes
+                   ELSE [m EXCEPT !.runs = Append(m.runs, [out |-> m.out, result |-> m.result])]
+         IN StartNext(m1)
+
+Step(m) == AdvanceRun(Step1(m))
 =============================================================================
